@@ -362,6 +362,33 @@ theorem refuses_non_cov_forms (slv : Solver R) (A : NArr R) (rd dd : ℕ) (c : O
 example : mapDirect (constSolver (fun _ => (0:ℤ))) (.m 1 1 fun _ _ => 1) 1 1 none none (.v 1 fun _ => 0) (.v 1 fun _ => 0)
     = .error .notImplemented := rfl
 
+/-- **cov_never_stale.**  After any history of setter assignments and `compute_cov()` calls on one
+    Gaussian, the `cov` getter either raises or holds the value of the *last* operation: re-assigning
+    `prec` / `sqrtcov` / `sqrtprec` discards a previously computed covariance (the closed form then
+    refuses until `compute_cov()` is called again), re-assigning `cov` replaces it. -/
+theorem cov_never_stale (st : CovState R) (ops : List (CovOp R)) (last : CovOp R) :
+    (CovState.run st (ops ++ [last])).cov =
+      match last with
+      | .setMain v => if st.covMutable then some v else none
+      | .computeCov full => some full := by
+  have hm : ∀ (ops : List (CovOp R)) (st : CovState R), (CovState.run st ops).covMutable = st.covMutable := by
+    intro ops
+    induction ops with
+    | nil => intro st; rfl
+    | cons o os ih =>
+      intro st
+      show (CovState.run (st.step o) os).covMutable = st.covMutable
+      rw [ih]
+      cases o <;> simp [CovState.step] <;> split <;> rfl
+  unfold CovState.run
+  rw [List.foldl_append]
+  show ((CovState.run st ops).step last).cov = _
+  cases last with
+  | setMain v => simp only [CovState.step, hm ops st]; split <;> rfl
+  | computeCov full => rfl
+
+example : (CovState.run (R := ℤ) ⟨false, none⟩ [.computeCov (.s 2), .setMain (.s 3)]).cov.isNone = true := rfl
+
 /-- **sampleCentre_refuses_vectors.**  With a 1-D covariance vector (length > 1) on either side the
     direct sampler never produces draws: whatever `MAP` returned, `np.linalg.inv` raises. -/
 theorem sampleCentre_refuses_vectors (slv : Solver R) (A : NArr R) (rd dd : ℕ) (Ce Cx : NArr R) (x0 b : NArr R)
